@@ -225,9 +225,9 @@ impl World {
                     supported_quote_denoms: msg.quotes.clone(),
                     approvers: msg.approvers.clone(),
                     executors: msg.executors.clone(),
-                    ask_fee_rate: msg.askfee_rate.get().map(render_dec),
+                    ask_fee_rate: msg.askfee_rate.get().map(render_rate),
                     ask_fee_account: msg.askfee_acct.get().cloned(),
-                    bid_fee_rate: msg.bidfee_rate.get().map(render_dec),
+                    bid_fee_rate: msg.bidfee_rate.get().map(render_rate),
                     bid_fee_account: msg.bidfee_acct.get().cloned(),
                     ask_required_attributes: msg.askattrs.clone(),
                     bid_required_attributes: msg.bidattrs.clone(),
@@ -241,9 +241,9 @@ impl World {
             ReqT::Migrate { msg, .. } => {
                 let m = MigrateMsg {
                     approvers: msg.approvers.get().cloned(),
-                    ask_fee_rate: msg.askfee_rate.get().map(render_dec),
+                    ask_fee_rate: msg.askfee_rate.get().map(render_rate),
                     ask_fee_account: msg.askfee_acct.get().cloned(),
-                    bid_fee_rate: msg.bidfee_rate.get().map(render_dec),
+                    bid_fee_rate: msg.bidfee_rate.get().map(render_rate),
                     bid_fee_account: msg.bidfee_acct.get().cloned(),
                     ask_required_attributes: msg.askattrs.get().cloned(),
                     bid_required_attributes: msg.bidattrs.get().cloned(),
@@ -412,9 +412,9 @@ fn execute_msg(req: &ReqT) -> (String, Vec<CoinT>, ExecuteMsg) {
             ExecuteMsg::ModifyContract {
                 approvers: approvers.get().cloned(),
                 executors: executors.get().cloned(),
-                ask_fee_rate: askfee_rate.get().map(render_dec),
+                ask_fee_rate: askfee_rate.get().map(render_rate),
                 ask_fee_account: askfee_acct.get().cloned(),
-                bid_fee_rate: bidfee_rate.get().map(render_dec),
+                bid_fee_rate: bidfee_rate.get().map(render_rate),
                 bid_fee_account: bidfee_acct.get().cloned(),
                 ask_required_attributes: askattrs.get().cloned(),
                 bid_required_attributes: bidattrs.get().cloned(),
@@ -565,7 +565,7 @@ fn class_str(c: &AskOrderClass) -> String {
 // ---------------------------------------------------------------------- conversions
 fn feeinfo_to_chain(f: &FeeInfoT) -> Option<FeeInfo> {
     if f.some {
-        Some(FeeInfo { account: Addr::unchecked(f.acct.clone()), rate: render_dec(&f.rate) })
+        Some(FeeInfo { account: Addr::unchecked(f.acct.clone()), rate: render_rate(&f.rate) })
     } else {
         None
     }
@@ -573,7 +573,7 @@ fn feeinfo_to_chain(f: &FeeInfoT) -> Option<FeeInfo> {
 
 fn feeinfo_from_chain(f: &Option<FeeInfo>) -> FeeInfoT {
     match f {
-        Some(fi) => FeeInfoT { some: true, acct: fi.account.to_string(), rate: unrender_dec(&fi.rate) },
+        Some(fi) => FeeInfoT { some: true, acct: fi.account.to_string(), rate: unrender_rate(&fi.rate) },
         None => FeeInfoT::none(),
     }
 }
